@@ -281,6 +281,9 @@ def root_fn(q):
   return ROOT[q]
 
 
+INT_TAGS = False
+
+
 class SReal(float):
   """A float whose value is a z3 Real term.  Its *float value* is a unique
   integer tag so that it survives C-level formatting and can be mapped back."""
@@ -360,8 +363,15 @@ class SReal(float):
   def __int__(self):
     """int() of a symbolic real under the *real* model: if the path condition
     fixes trunc(x) to one integer, that concrete int is returned (and noted);
-    otherwise the path leaves the stated bound."""
+    otherwise the path leaves the stated bound.  With INT_TAGS set (harnesses in
+    which the code under test has no int() of its own, so that the conversion can
+    only come from a C-level array/dtype cast) the result is a fresh tag standing
+    for trunc(x): the truncated value stays symbolic through the writer."""
     run = cur()
+    if INT_TAGS:
+      tr = z3.If(self.t >= 0, z3.ToReal(z3.ToInt(self.t)), -z3.ToReal(z3.ToInt(-self.t)))
+      run.notes.append("int() of a symbolic real kept symbolic as trunc(x) (C-level integer conversion)")
+      return run.new_tag(tr)
     s = run.solver
     if s.check() != z3.sat:
       raise PathAbort("int() of a symbolic real: path condition not satisfiable/unknown")
